@@ -44,6 +44,9 @@ class Tok:
         return copy.deepcopy(self)
 
     def wire(self):
+        if self.extra.get("__wire__") is not None:
+            return self.extra["__wire__"]
+
         def pseg(m):
             return b64.enc(m["protected"]) if m["protected"] is not None else None
         if self.path in ("compact", "7797-attached", "7797-detached"):
@@ -137,11 +140,19 @@ def verify_key(kind, path, which=0, kty_oct=False):
     return A.jkey(k, "dict", private=(k["kty"] == "oct"))
 
 
-def entry_points(path, payload_is_json):
+def entry_points(path, payload_is_json, alg=None):
     from joserfc import jws, jwt, rfc7797
     eps = []
     if path == "compact":
         eps.append(("jws.deserialize_compact", lambda t, k, a, p: _norm(jws.deserialize_compact(t, k, algorithms=a))))
+        if alg in scen.JWS_RECOMMENDED:
+            # the calls as the guide writes them: no allow-list, no registry (the recommended algorithms are usable)
+            eps.append(("jws.deserialize_compact(token, key)", lambda t, k, a, p: _norm(jws.deserialize_compact(t, k))))
+            if payload_is_json:
+                def jd0(t, k, a, p):
+                    tok = jwt.decode(t, k)
+                    return json.dumps(tok.claims, separators=(",", ":")).encode(), [tok.header]
+                eps.append(("jwt.decode(token, key)", jd0))
 
         def vc(t, k, a, p):
             o = jws.extract_compact(t.encode())
@@ -224,7 +235,7 @@ def flip(data, bit):
     return bytes(b)
 
 
-FAULTS = ["none", "bitflip-header", "bitflip-payload", "bitflip-signature", "signature-truncate", "signature-extend",
+FAULTS = ["none", "a-jwe-in-its-place", "bitflip-header", "bitflip-payload", "bitflip-signature", "signature-truncate", "signature-extend",
           "signature-reencode", "splice", "splice-other-key", "structural", "key-substitution", "caller-payload", "respell-header",
           "right-key-other-scheme", "payload-other-normal-form"]
 PAYLOAD_UNICODE = "caf\u00e9 \u00c5ngstr\u00f6m \ud55c".encode("utf-8")       # precomposed (NFC) text; its NFD spelling has other octets
@@ -237,6 +248,19 @@ def apply_fault(ctx, tok, kind, fault, alg, path, placement, stride=1, tag=""):
     if path in GENERAL and fault.startswith(("bitflip-header", "bitflip-signature", "signature-", "respell-header")):
         m_idx = ctx.choose(tag + "member", [0, 1])
     m = tok.members[m_idx]
+    if fault == "a-jwe-in-its-place":
+        # not a JWS at all: a JWE that anyone holding the PUBLIC key can make, carrying claims of its maker's choice, presented where a signed token is
+        # expected, to an application that holds the key pair (the key object it verifies with has the private half)
+        if path != "compact" or not alg.startswith(("RS", "PS", "ES")) or alg == "ES256K":
+            return None
+        from ..ref import jwe as rjwe
+        jwk = scen.key(kind, 0)
+        ealg = ctx.choose(tag + "jwe_alg", ["RSA-OAEP", "RSA1_5", "RSA-OAEP-256"] if jwk["kty"] == "RSA" else ["ECDH-ES", "ECDH-ES+A128KW"])
+        if jwk["kty"] == "RSA" and len(b64.dec(jwk["n"])) * 8 < 2048:
+            return None
+        tok.extra["__wire__"] = rjwe.encrypt({"alg": ealg, "enc": "A128GCM"}, b'{"iss":"eve","admin":true}', [{"jwk": rjwk.public_of(jwk)}], form="compact",
+                                             rand=rjwe.Drbg(repr((alg, kind, ealg)).encode()))
+        return f"a {ealg} JWE made with the public key, presented as the token; the verifier holds the key pair", A.jkey(jwk, "dict")
     if fault == "bitflip-header":
         if m["protected"] is None:
             return None
@@ -577,7 +601,7 @@ def h_faults(ctx):
     ref_payload = None
     if fault != "none" and key_override is None and fault != "caller-payload":
         ref_payload = ref_verdict(wire, kind, path, caller_payload)
-    for name, ep in entry_points(path, payload_is_json=(path == "compact")):
+    for name, ep in entry_points(path, payload_is_json=(path == "compact"), alg=alg):
         r = call(ep, copy.deepcopy(wire), key, [alg, "none"] if "none-alg" in desc else [alg], caller_payload)
         if fault != "none" and not r.ok and present_again(desc):
             # a refused token that is presented again - same octets, same key object, same arguments - is refused again
@@ -617,6 +641,59 @@ def h_faults(ctx):
             else:
                 buckets.append("rejected:" + r.etype)
     return Outcome(f"{fault}:{'|'.join(sorted(set(buckets)))}", vs, nontrivial=(alg, kind, path, placement, desc), n=max(1, len(buckets)))
+
+
+def h_long(ctx):
+    """Payloads longer than the 64 KiB at which buffers are usually cut: a change anywhere in them - the very end included - is refused."""
+    from joserfc import jws, jwt
+    alg, kind = ctx.choose("alg/key", [("HS256", "oct32"), ("HS384", "oct48"), ("HS512", "oct64"), ("ES256", "P-256"), ("RS256", "rsa")])
+    path = ctx.choose("path", ["compact", "flattened", "general", "jwt"])
+    n = ctx.choose("payload_octets", [65537, 100000, 131073, 200001])
+    edit = ctx.choose("edit", ["none", "last octet changed", "an octet in the last 1000 changed", "octet 65536 changed", "first octet changed", "one octet appended", "last octet dropped",
+                               "the last 500 octets replaced"])
+    jwk = scen.key(kind)
+    body = ('{"iss":"joe","admin":false,"pad":"' + "x" * (n - 56) + '","role":"user","n":1}').encode()
+    seg = b64.enc(rjws.hdr_json({"alg": alg}).encode())
+    sig = b64.enc(jws_sign(alg, jwk, rjws.signing_input(seg, body, True)))
+    new = bytearray(body)
+    if edit == "last octet changed":
+        new[-2] = ord("7")                       # the last digit of the last claim
+    elif edit == "an octet in the last 1000 changed":
+        i = body.rindex(b'"user"')
+        new[i + 1:i + 5] = b"root"
+    elif edit == "octet 65536 changed":
+        new[65536] = ord("y")
+    elif edit == "first octet changed":
+        new[2] = ord("j")
+    elif edit == "one octet appended":
+        new += b" "
+    elif edit == "last octet dropped":
+        new = new[:-1]
+    elif edit == "the last 500 octets replaced":
+        new[-500:] = b"y" * 460 + b'","role":"root","admin":true,"n":9}'
+    new = bytes(new)
+    if path in ("compact", "jwt"):
+        tok = seg + "." + b64.enc(new) + "." + sig
+    elif path == "flattened":
+        tok = {"protected": seg, "payload": b64.enc(new), "signature": sig}
+    else:
+        tok = {"payload": b64.enc(new), "signatures": [{"protected": seg, "signature": sig}]}
+    key = A.jkey(jwk, "dict", private=(jwk["kty"] == "oct"))
+    if path == "compact":
+        r = call(lambda: bytes(jws.deserialize_compact(tok, key, algorithms=[alg]).payload))
+    elif path == "jwt":
+        r = call(lambda: json.dumps(jwt.decode(tok, key, algorithms=[alg]).claims, separators=(",", ":")).encode())
+    else:
+        r = call(lambda: bytes(jws.deserialize_json(copy.deepcopy(tok), key, algorithms=[alg]).payload))
+    vs = []
+    fam = alg[:2]
+    what = f"{alg} {path}, payload of {n} octets, {edit}"
+    if edit == "none":
+        if not r.ok or (path != "jwt" and r.value != body):
+            vs.append(viol(f"valid token with a long payload rejected: {fam}* {path}", f"{what}: {r.exc!r}"))
+    elif r.ok:
+        vs.append(viol(f"a long payload changed after signing is returned as verified [{edit}]: {fam}* {path}", what))
+    return Outcome(f"long:{'valid' if edit == 'none' else 'tampered'}:{'ok' if r.ok else 'rej:' + r.etype}", vs, nontrivial=(alg, path, n, edit))
 
 
 # ------------------------------------------------------------------ what the caller does with a verified object must not reach later verifications
@@ -694,5 +771,6 @@ _pe = Part("after-caller-edits", h_after_caller_edits, split_depth=2)
 _pe.single_bucket_ok = True          # on a tree where the property holds every forged token is rejected: one outcome
 PARTS = [
     _pe,
+    Part("long-payloads", h_long, split_depth=2),
     Part("faults", h_faults, bound={"quick": 2, "thorough": 2}, split_depth=4, budget={"quick": 2000, "thorough": 3000}),
 ]
